@@ -302,12 +302,15 @@ func producers() []prod {
 			return tup2(iterator.ZipWithIndex(src(in))), e
 		}},
 		{"Zip3", func(in []int) (fp.Iterator[int], []int) {
+			// three operands of independently chosen lengths (each a prefix of the input): the shortest decides
+			la, lb, lc := zz.IntIn("la", 0, len(in)), zz.IntIn("lb", 0, len(in)), zz.IntIn("lc", 0, len(in))
+			a, b, c := in[:la], in[:lb], in[:lc]
 			var e []int
-			for _, x := range in {
-				e = append(e, x+x+x)
+			for i := 0; i < len(a) && i < len(b) && i < len(c); i++ {
+				e = append(e, zz.UFInt("z3", a[i], b[i], c[i]))
 			}
-			z := iterator.Zip3(src(in), src(in), src(in))
-			return iterator.Map(z, func(t fp.Tuple3[int, int, int]) int { return t.I1 + t.I2 + t.I3 }), e
+			z := iterator.Zip3(src(a), src(b), src(c))
+			return iterator.Map(z, func(t fp.Tuple3[int, int, int]) int { return zz.UFInt("z3", t.I1, t.I2, t.I3) }), e
 		}},
 		{"Scan", func(in []int) (fp.Iterator[int], []int) {
 			f := ufF2("f")
